@@ -668,7 +668,7 @@ class NetworkGraph(AbstractBaseIR):
 
             buffer_eqs = []
             for i, (d, sidx) in enumerate(zip(delays, source_idx)):
-                var_delayed = f"past({var}, {d})" if d and (type(d) is float or d != 1) else var
+                var_delayed = f"past({var}, {d})" if d else var  # `0` marks an undelayed edge
                 if len(target_shape) < 1 or (len(target_shape) == 1 and target_shape[0] == 1):
                     buffer_eqs.append(f"{var}_buffered{buffer_id} = {var_delayed}")
                 else:
